@@ -715,10 +715,10 @@ theorem req_decode_custom (fc : FunctionCode) (d : Bytes) (hlt : fc.value < 0x80
 
 /-- … and of a custom response: `Custom(FunctionCode::new(code), data)` -/
 theorem rsp_decode_custom (fc : FunctionCode) (d : Bytes)
-    (hm : fc.value ∉ modelledReqCodes) :
+    (hm : fc.value ∉ modelledRspCodes) :
     Response.decode (Response.custom fc d).image = .ok (.custom (FunctionCode.new fc.value) d) := by
   have hv := value_new fc.value
-  simp only [modelledReqCodes, List.mem_cons, List.not_mem_nil, or_false, not_or] at hm
+  simp only [modelledRspCodes_eq, List.mem_cons, List.not_mem_nil, or_false, not_or] at hm
   show Response.decode ([fc.value] ++ d) = _
   unfold Response.decode
   simp only [List.singleton_append, List.isEmpty_cons, idx, List.getElem?_cons_zero, Res.bind'_ok,
